@@ -44,4 +44,14 @@ def obligations(tier):
     obs.append(Ob('O6.1-api-members', 'fn', L + 'api_members', slices=[dict(x, n=12 if tier == 'quick' else 80) for x in dl], timeout=t,
                   descr='composition check: solver-generated dates of each layout resolve through recognize_datetime to exactly that date (value = TIMEX)',
                   bounds='12 (thorough 80) z3 models per (culture, layout); validation of the composition, not a universal verdict'))
+    ZD = 'recognizers_date_time.date_time.chinese.date_parser:ChineseDateParser.'
+    obs.append(Ob('O6.6-chinese-full-date', 'sx', 'harness.dateparse_zh:h_zh_full', twin='harness.dateparse_zh:t_zh_full', slices=[{'m': m} for m in range(1, 13)], timeout=t,
+                  descr='Chinese: year/month/day groups through the real ChineseDateParser.match_to_date (get_month_of_year / get_day_of_month folding) and the ChineseMergedParser resolution builder -> one date value = TIMEX, independent of the reference; invalid day -> not resolved',
+                  bounds='year 1900..2099, day 1..31, one slice per month; reference every minute 1950..2090',
+                  encodes=[ZD + 'parse', ZD + 'parse_basic_regex_match', ZD + 'match_to_date', ZD + 'get_day_of_month', ZD + 'get_month_of_year',
+                           'recognizers_date_time.date_time.chinese.merged_parser:ChineseMergedParser.parse', 'recognizers_date_time.date_time.chinese.merged_parser:ChineseMergedParser._date_time_resolution'],
+                  stubs=['FakeRegex/FakeMatch', 'one-entry month/day tables (real tables audited by O6.6-chinese-tables)', 'digit placeholders; int() patched']))
+    obs.append(Ob('O6.6-chinese-tables', 'fn', 'harness.dateparse_zh:audit_zh_tables', timeout=t,
+                  descr='audit (concrete, exhaustive over keys; not a solver verdict): every key of the Chinese day / month tables through the real get_day_of_month / get_month_of_year (lunar spellings folded into 1..31 / 1..12), '
+                        'numeric and CJK numeral keys present and right, weekday words, special-day words', encodes=[ZD + 'get_day_of_month', ZD + 'get_month_of_year']))
     return obs
